@@ -119,6 +119,7 @@ class Interp:
         self.notes: List[str] = []
         self._pending_guard = None
         self.falls_through = True
+        self._dirty: set = set()
         self._run()
 
     # ------------------------------------------------------------------ setup
@@ -498,6 +499,9 @@ class Interp:
             nm = tgt.value.id
             cur = self.env.get(nm)
             idx = tt[2]
+            if cur is not None and cur[0] in ("dict", "list") and (self._loopstack or self._guards or not is_const(idx)):
+                # stored to in a symbolic context: later reads must not be folded to the literal's initial content
+                self._dirty.add(cur)
             if cur is not None and cur[0] == "dict" and is_const(idx) and not self._loopstack and not self._guards:
                 items = list(cur[1])
                 for k, (kk, vv) in enumerate(items):
@@ -562,6 +566,8 @@ class Interp:
         return self.mk_sub(self.expr(n.value), self.index(n.slice))
 
     def mk_sub(self, base: Term, idx: Term) -> Term:
+        if base in self._dirty:
+            return ("sub", base, idx)
         if is_const(idx):
             k = idx[1]
             if base[0] in ("tuple", "list") and isinstance(k, int) and not isinstance(k, bool) and -len(base[1]) <= k < len(base[1]):
